@@ -256,12 +256,33 @@ def _agree_after_resimplification(ctx, impl_enc: str, model_enc: str, rounds: in
 
 
 # ---- C02 generator --------------------------------------------------------------------------------------------------
+class _KeyShadow(ast.NodeTransformer):
+    """wrap a sub-expression X as {1: 0, 0 + 1: X}[1] (or with string keys): in Python the later, COMPUTED key overrides the
+    constant one, so the value is still X; a simplifier that takes the literal apart by its constant keys changes it"""
+
+    def __init__(self, rng, rate):
+        self.rng, self.rate, self.n = rng, rate, 0
+
+    def generic_visit(self, node):
+        node = super().generic_visit(node)
+        if isinstance(node, ast.expr) and not isinstance(node, (ast.Lambda, ast.Starred, ast.Slice, ast.Constant)) \
+                and not isinstance(getattr(node, "ctx", None), ast.Store) and self.rng.random() < self.rate:
+            self.n += 1
+            src = ast.unparse(node)
+            new = self.rng.choice([f"{{1: 0, 0 + 1: {src}}}[1]", f"{{'a': 0, 'a' + '': {src}}}['a']", f"{{'a': 0, 'a' + '': {src}}}.a",
+                                   f"{{0 + 1: 0, 1: {src}}}[1]", f"{{'k': 0, 2: 1, 1 + 1: {src}}}[2]"])
+            return ast.parse(new, mode="eval").body
+        return node
+
+
 def gen_c02(rng):
     opt = Opt(form=rng.choice(["func", "func", "func", "mixed"]), naming=rng.choice(["mixed", "same", "reuse", "distinct"]),
               comps=False, max_depth=rng.choice([2, 3, 4]), called_lambda=True, kw_called_lambda=True, world_funcs=rng.random() < 0.5)
     src, _ = gen_query(rng, opt)
     if rng.random() < 0.5:
         src = ast.unparse(to_calls(parse_expr(src)))
+    if rng.random() < 0.12:
+        src = ast.unparse(_KeyShadow(rng, 0.12).visit(parse_expr(src)))
     return src
 
 
